@@ -203,6 +203,12 @@ def gjk_nesterov_accelerated(
 
         i += 1
 
+    if i >= max_interations:
+        # Iteration limit reached without convergence: report the current
+        # upper bound of the distance instead of the initial value 0.
+        distance = ray_len - inflation
+        inside = distance < tolerance
+
     return inside, distance, simplex, i
 
 
